@@ -172,6 +172,23 @@ func planC14(tier string, root *simcore.RNG) *plan {
 			}
 		}
 	}
+	// E12: text of another encoding in front of every line of small ASCII files (alone,
+	// and with the rest of the line cut short), and lines in another letter case
+	for _, n := range []int{1, 2} {
+		b := bs("ascii", n)
+		for i := 0; i < 2+7*n; i++ {
+			for style := 0; style < 4; style++ {
+				for _, k := range []int{1, 3, 8, 40} {
+					add(b, fmt.Sprintf("junk-prefix:%d:%d:%d", i, k, style))
+				}
+				add(b, fmt.Sprintf("cut-line:%d:%d", i, 9), fmt.Sprintf("junk-prefix:%d:%d:%d", i, 6, style))
+				add(b, fmt.Sprintf("cut-line:%d:%d", i, 12), fmt.Sprintf("junk-prefix:%d:%d:%d", i, 12, style))
+			}
+			add(b, fmt.Sprintf("recode-line:%d:0", i))
+			add(b, fmt.Sprintf("recode-line:%d:1", i))
+			add(b, fmt.Sprintf("recode-line:%d:0", i), fmt.Sprintf("junk-prefix:%d:5:0", i))
+		}
+	}
 	// E7: what the path is
 	for _, b := range []string{bs("bin", 2), bs("ascii", 2), bs("bin", 0)} {
 		for _, op := range []string{"as-symlink", "as-directory", "as-devnull", "as-devzero", "as-missing", "odd-name"} {
@@ -294,7 +311,7 @@ func planC14(tier string, root *simcore.RNG) *plan {
 	pl.exhaust = true
 	pl.extra = map[string]any{"enumerated_cases": enumerated, "sampled_multi_fault_cases": nsample, "arbitrary_byte_and_token_soup_cases": 2 * nrand,
 		"exhaustive_subspace": "every truncation offset of 9 small binary/streamed/ASCII files; every bit of the count field of 3 binary files (alone, padded to match, +50 bytes); every flush-index crash image of the streaming writer for 200 and 1000 triangles; every line x {drop, dup, half-written at 6 columns, stray token, 13 malformed numbers} of 3 ASCII files; every single/pair sector fault of a 5-sector binary and a 4-sector ASCII file; undamaged binary/streamed/ASCII files for every triangle count 0..300 (thorough 0..4200) and for powers of two and round decimal counts +-1 up to 65537. Multi-fault sequences and the shipped files are sampled."}
-	pl.rule = "case = base file (SaveSTL / ToSTL / harness-written ASCII / crash image of the streaming writer / shipped files / arbitrary bytes / random STL-token soup) + 0..4 storage-fault operators (truncate at byte n, zeroed / duplicated / swapped / PRNG-filled 512-byte sector, bit flip, count rewrite, trailing zeros / garbage / second copy, padding that makes 84+50*count match again, dropped / duplicated / half-written line, stray token, malformed number, CRLF) loaded with render.LoadSTL and, for a quarter of the cases, obj.ImportSTL. Oracle: returns a mesh or an error; a recovered panic, no return within 20 s, or TotalAlloc growth above 1 MiB + 64 x file size is a violation. Non-trivial = at least one operator changed the file; distinct = (entry point, base, operators)."
+	pl.rule = "case = base file (SaveSTL / ToSTL / harness-written ASCII / crash image of the streaming writer / shipped files / arbitrary bytes / random STL-token soup) + 0..4 storage-fault operators (truncate at byte n, zeroed / duplicated / swapped / PRNG-filled 512-byte sector, bit flip, count rewrite, trailing zeros / garbage / second copy, padding that makes 84+50*count match again, dropped / duplicated / half-written line, stray token, malformed number, CRLF, bytes of another text encoding in front of a line, a line in another letter case) loaded with render.LoadSTL and, for a quarter of the cases, obj.ImportSTL. Oracle: returns a mesh or an error; a recovered panic, no return within 20 s, or TotalAlloc growth above 1 MiB + 64 x file size is a violation. Non-trivial = at least one operator changed the file; distinct = (entry point, base, operators)."
 	pl.assume = []string{
 		"the claim is totality over the storage-fault closure of valid files (what a disk produces), not over adversarial byte strings; arbitrary bytes are reached only through PRNG-filled sectors and appended garbage",
 		"a hang is judged by a 20 s wall-clock bound on sequential code (files <= 0.5 MB load in milliseconds)",
